@@ -9,7 +9,7 @@ def handle (j : Json) : Json :=
   let kind := getStr j "kind"
   let op := getStr j "op"
   match kind with
-  | "gate" =>
+  | "gate" | "gate-run" =>
     let dts : List (Option DType) := (getArr j "dts").toList.map fun v =>
       match v with
       | .str s => some (dtOfString s)
